@@ -137,7 +137,7 @@ func (g *obGen) note(i int) J {
 	if g.r.Intn(2) == 0 {
 		var at []interface{}
 		for j, k := 0, 1+g.r.Intn(2); j < k; j++ {
-			at = append(at, Pick(g.r, append([]string{g.st.Alice.ID}, g.actors...)))
+			at = append(at, Pick(g.r, append([]string{g.st.Alice.ID, caseVariant(g.st.Alice.ID), caseVariant(g.actors[0])}, g.actors...)))
 		}
 		n["attributedTo"] = at
 	}
@@ -765,6 +765,15 @@ func oracleC03(c *DriveCtx, res *Result) {
 
 // ---- C05 oracle ------------------------------------------------------------------------------
 
+// caseVariant: the IRI with the last path segment capitalised - another IRI, hence another actor.
+func caseVariant(iri string) string {
+	i := strings.LastIndex(iri, "/")
+	if i < 0 || i+1 >= len(iri) {
+		return iri
+	}
+	return iri[:i+1] + strings.ToUpper(iri[i+1:i+2]) + iri[i+2:]
+}
+
 func unionIDs(lists ...[]string) []string {
 	var all []string
 	for _, l := range lists {
@@ -826,6 +835,26 @@ func oracleC05(c *DriveCtx, res *Result) {
 			}
 		}
 		if !ok {
+			// a post the application itself turned down (its callback returned an error, nothing else went wrong) is not an
+			// accepted post: it must not be listed, or the outbox no longer lists exactly the returned ids
+			cbOnly, listed := false, -1
+			for _, e := range s.Log {
+				if e.Task != t.ID {
+					continue
+				}
+				if e.Fault {
+					cbOnly = strings.HasPrefix(e.Kind, "app.cb.")
+					if !cbOnly {
+						break
+					}
+				}
+				if e.Kind == "db.SetOutbox" && !e.Fault {
+					listed = e.Seq
+				}
+			}
+			if cbOnly && listed >= 0 && t.Panic == nil {
+				s.violate("C05", "listed-although-rejected", "outbox", fmt.Sprintf("%s: the application's callback returned an error, the post failed (%v) and its id was still put into the outbox at event %d", t.ID, t.Err, listed))
+			}
 			continue
 		}
 		if o.newID == "" {
